@@ -172,7 +172,8 @@ theorem rel_set {w : WM} {iss : List Handle} {s : WS} (hsh : SharedPooled w)
       exact cmdRel_ext he (hcmd b hb' cmd hc) hcs
     marked := hr.marked
     markedLt := hr.markedLt
-    markedNodup := hr.markedNodup }
+    markedNodup := hr.markedNodup
+    markedOld := hr.markedOld }
 
 /-- the frame move: `Inv` -/
 theorem inv_frame {c : CW} {w' : WM} (hi : Inv c) (hf : FrameEq c.w w') (he : PoolExt c.w.pool w'.pool)
@@ -286,7 +287,9 @@ theorem inv_push {c : CW} (hi : Inv c) (t : Nat) (cmd : Cmd) (hcr : crH cmd = no
     exact ⟨(hi.markedKnown h hm).1, fun hc => (hi.markedKnown h hm).2 ((hch h).mp hc)⟩
 
 theorem rel_push {c : CW} {s : WS} (hr : Rel c s) (t : Nat) (cmd : Cmd) (sc : SCmd)
-    (hrel : cmdRel c.issued c.w.pool cmd sc) : Rel ⟨c.w.pushCmd t cmd, c.issued⟩ (s.push t sc) :=
+    (hrel : cmdRel c.issued c.w.pool cmd sc)
+    (hnm : ∀ e, crH cmd = some e → ∀ o ∈ s.marked, c.issued[o]? ≠ some e) :
+    Rel ⟨c.w.pushCmd t cmd, c.issued⟩ (s.push t sc) :=
   { len := hr.len
     ents := hr.ents
     deps := hr.deps
@@ -295,6 +298,21 @@ theorem rel_push {c : CW} {s : WS} (hr : Rel c s) (t : Nat) (cmd : Cmd) (sc : SC
     buffers := hr.buffers.set t ((hr.buffers.getD t [] [] .nil).append (.cons hrel .nil))
     marked := hr.marked
     markedLt := hr.markedLt
-    markedNodup := hr.markedNodup }
+    markedNodup := hr.markedNodup
+    markedOld := by
+      intro o ho h hh
+      show h ∉ createHandles (c.w.buffers.set t (c.w.buffers.getD t [] ++ [cmd]))
+      have hold := hr.markedOld o ho h hh
+      by_cases ht : t < c.w.buffers.length
+      · rw [(createHandles_push c.w.buffers t cmd ht).mem_iff, List.mem_append]
+        rintro (hc | hc)
+        · exact hold hc
+        · cases hcr : crH cmd with
+          | none => rw [hcr] at hc; simp at hc
+          | some e =>
+            rw [hcr] at hc
+            have : h = e := by simpa using hc
+            exact hnm e hcr o ho (this ▸ hh)
+      · rw [createHandles_push_ge _ _ _ (by omega)]; exact hold }
 
 end Mustache.Proofs.Refine
